@@ -282,6 +282,13 @@ def run(chk):
                 raise AnalysisError("empty read set derived for %s of %s" % (q, cq))
         check_class(chk, P, ci, m, qs)
     check_who_writes(chk, P, models)
+    # a read regenerates through generate_*; an explicit gen_*() with the options left out must compute the same thing
+    A_ = "eqsig.single.AccSignal"
+    S_ = "eqsig.single.Signal"
+    sibling_defaults(chk, "R-GUARD", [A_ + ".gen_response_spectrum", A_ + ".generate_response_spectrum"], neutral={"xi": -1},
+                     label="AccSignal.gen_response_spectrum~generate_response_spectrum")
+    sibling_defaults(chk, "R-GUARD", [S_ + ".gen_smooth_fa_spectrum", S_ + ".generate_smooth_fa_spectrum", "eqsig.fns.frequency.calc_smooth_fa_spectrum"],
+                     label="Signal.gen_smooth_fa_spectrum~generate_smooth_fa_spectrum~calc_smooth_fa_spectrum")
     chk.floor("R-GUARD", 30)
     chk.floor("R-INV", 90)
     chk.floor("R-CLEAR", 2)
